@@ -21,24 +21,55 @@ pub struct Choice {
     pub pick: u16,
 }
 
+/// Sparse deviation set: (choice-point index, alternative), sorted by index. Copy, no heap.
+pub const MAX_DEV: usize = 6;
+#[derive(Clone, Copy, Debug, Default, PartialEq, Eq, PartialOrd, Ord)]
+pub struct Dev {
+    pub n: u8,
+    pub items: [(u32, u16); MAX_DEV],
+}
+impl Dev {
+    pub fn last_pos(&self) -> Option<u32> {
+        if self.n == 0 { None } else { Some(self.items[self.n as usize - 1].0) }
+    }
+    pub fn with(&self, pos: u32, alt: u16) -> Dev {
+        let mut d = *self;
+        d.items[d.n as usize] = (pos, alt);
+        d.n += 1;
+        d
+    }
+    pub fn from_picks(picks: &[u16]) -> Dev {
+        let mut d = Dev::default();
+        for (i, p) in picks.iter().enumerate() {
+            if *p != 0 {
+                d = d.with(i as u32, *p);
+            }
+        }
+        d
+    }
+}
+
 pub struct Chooser<'a> {
-    prefix: &'a [u16],
+    dev: &'a Dev,
+    next: usize,
     pub trace: Vec<Choice>,
 }
 
 impl<'a> Chooser<'a> {
-    pub fn new(prefix: &'a [u16]) -> Self {
+    pub fn new(dev: &'a Dev) -> Self {
         Chooser {
-            prefix,
-            trace: Vec::with_capacity(32),
+            dev,
+            next: 0,
+            trace: Vec::with_capacity(64),
         }
     }
     /// Pick one of `n` alternatives; 0 is the default.
     pub fn choose(&mut self, label: &'static str, n: usize) -> usize {
         assert!(n >= 1 && n < u16::MAX as usize, "bad arity at {label}");
         let pos = self.trace.len();
-        let pick = if pos < self.prefix.len() {
-            let p = self.prefix[pos];
+        let pick = if self.next < self.dev.n as usize && self.dev.items[self.next].0 as usize == pos {
+            let p = self.dev.items[self.next].1;
+            self.next += 1;
             if (p as usize) >= n {
                 // A replayed prefix must meet the same choice points: hard machinery error.
                 eprintln!(
@@ -109,9 +140,10 @@ pub fn explore<F>(cfg: &ExploreCfg, f: F) -> ExploreStats
 where
     F: Fn(&mut Chooser) + Sync,
 {
+    assert!(cfg.max_dev <= MAX_DEV, "deviation bound exceeds MAX_DEV");
     let start = Instant::now();
     let mut stats = ExploreStats::default();
-    let mut level: Vec<Vec<u16>> = vec![vec![]];
+    let mut level: Vec<Dev> = vec![Dev::default()];
     let coverage: Mutex<BTreeMap<(&'static str, u16), u64>> = Mutex::new(BTreeMap::new());
     let arities: Mutex<BTreeMap<&'static str, u16>> = Mutex::new(BTreeMap::new());
     let edges = AtomicU64::new(0);
@@ -125,12 +157,12 @@ where
         let capped = AtomicBool::new(false);
         let done = AtomicU64::new(0);
         let want_children = d < cfg.max_dev;
-        let children: Mutex<Vec<Vec<u16>>> = Mutex::new(Vec::new());
+        let children: Mutex<Vec<Dev>> = Mutex::new(Vec::new());
         let threads = cfg.threads.max(1).min(level.len().max(1));
         std::thread::scope(|s| {
             for _ in 0..threads {
                 s.spawn(|| {
-                    let mut local_children: Vec<Vec<u16>> = Vec::new();
+                    let mut local_children: Vec<Dev> = Vec::new();
                     let mut local_cov: BTreeMap<(&'static str, u16), u64> = BTreeMap::new();
                     let mut local_ar: BTreeMap<&'static str, u16> = BTreeMap::new();
                     let mut local_edges = 0u64;
@@ -149,11 +181,11 @@ where
                         let mut c = Chooser::new(prefix);
                         f(&mut c);
                         done.fetch_add(1, Ordering::Relaxed);
-                        if c.trace.len() < prefix.len() {
+                        if c.next < prefix.n as usize {
                             eprintln!(
-                                "MACHINERY divergent replay: generator consumed {} choices, prefix has {}",
+                                "MACHINERY divergent replay: generator consumed {} choices, forced deviation at {:?} not reached",
                                 c.trace.len(),
-                                prefix.len()
+                                prefix.items[c.next]
                             );
                             std::process::exit(2);
                         }
@@ -166,13 +198,11 @@ where
                             }
                         }
                         if want_children {
-                            for j in prefix.len()..c.trace.len() {
+                            let from = prefix.last_pos().map_or(0, |p| p as usize + 1);
+                            for j in from..c.trace.len() {
                                 let ar = c.trace[j].arity;
                                 for alt in 1..ar {
-                                    let mut p: Vec<u16> =
-                                        c.trace[..j].iter().map(|x| x.pick).collect();
-                                    p.push(alt);
-                                    local_children.push(p);
+                                    local_children.push(prefix.with(j as u32, alt));
                                 }
                             }
                         }
